@@ -583,6 +583,50 @@ impl VisitMut for Normalizer {
             syn::Stmt::Expr(syn::Expr::Macro(m), _) => !is_debug_assert(&m.mac),
             _ => true,
         });
+        // `let x = x;` re-binds a value under its own name: nothing happens
+        b.stmts.retain(|st| match st {
+            syn::Stmt::Local(l) if l.attrs.is_empty() => match (&l.pat, &l.init) {
+                (syn::Pat::Ident(pi), Some(init)) if pi.by_ref.is_none() && pi.mutability.is_none() && pi.subpat.is_none() && init.diverge.is_none() => sm::as_ident(&init.expr).map_or(true, |n| n != pi.ident.to_string()),
+                _ => true,
+            },
+            _ => true,
+        });
+        // `let a = PURE; let [mut] b = a;` with no other use of `a`  ->  `let [mut] b = PURE;`
+        let mut i = 0;
+        while i + 1 < b.stmts.len() {
+            let alias: Option<(String, syn::Expr)> = match &b.stmts[i] {
+                syn::Stmt::Local(l) if l.attrs.is_empty() => match (&l.pat, &l.init) {
+                    (syn::Pat::Ident(pi), Some(init)) if pi.by_ref.is_none() && pi.mutability.is_none() && pi.subpat.is_none() && init.diverge.is_none() && crate::inline::pure_arg(&init.expr) && !matches!(&*init.expr, syn::Expr::Path(_)) => Some((pi.ident.to_string(), (*init.expr).clone())),
+                    _ => None,
+                },
+                _ => None,
+            };
+            let mut merged = false;
+            if let Some((a, init)) = alias {
+                let next_uses_only_a = match &b.stmts[i + 1] {
+                    syn::Stmt::Local(l2) if l2.attrs.is_empty() => l2.init.as_ref().map_or(false, |i2| i2.diverge.is_none() && sm::as_ident(&i2.expr).as_deref() == Some(a.as_str())),
+                    _ => false,
+                };
+                if next_uses_only_a {
+                    let mut rest = vec![];
+                    for st in &b.stmts[i + 2..] {
+                        sm::flat_tokens(quote::ToTokens::to_token_stream(st), &mut rest);
+                    }
+                    if !rest.contains(&a) {
+                        if let syn::Stmt::Local(l2) = &mut b.stmts[i + 1] {
+                            if let Some(i2) = l2.init.as_mut() {
+                                i2.expr = Box::new(init);
+                            }
+                        }
+                        b.stmts.remove(i);
+                        merged = true;
+                    }
+                }
+            }
+            if !merged {
+                i += 1;
+            }
+        }
         // `X.extend(ITER.map(|P| BODY));`  ->  `for P in ITER { X.push(BODY); }`
         for st in b.stmts.iter_mut() {
             let rewritten: Option<syn::Stmt> = match st {
@@ -1270,7 +1314,7 @@ fn inline_expression_helpers(f: &mut syn::File, reviewed: &BTreeSet<String>) {
 pub fn normalize_file_with(f: &mut syn::File, reviewed_private_fns: Option<&BTreeSet<String>>) {
     if let Some(r) = reviewed_private_fns {
         inline_expression_helpers(f, r);
-        inline_new_helpers(f, r);
+        crate::inline::inline_single_call_helpers(f, r);
     }
     normalize_file(f);
 }
